@@ -303,12 +303,20 @@ def render_header(model, where=None, guard="TYPES_H", blank=0):
     for t in sel:
         if t["kind"] != "opaque":
             out += _ns_wrap(t, render_typedef(model, t, cxx))
+    if where is None:
+        seen = set()
+        for t in model["types"]:
+            if t.get("same_line") and t["cname"] not in seen:
+                seen.add(t["cname"])
+                out.append("#ifdef %s_BASE" % t["cname"].upper())
+                out.append("typedef %s_BASE %s;" % (t["cname"].upper(), t["cname"]))
+                out.append("#endif")
     if where is None and model.get("priv_in_header"):
         # the same-named TU-private types live in the header, one definition per translation unit selected by a macro the
         # unit defines before including the header: "defined in the same source file", differently
         for t in model["types"]:
             w = t.get("where", "pub")
-            if w.startswith("tu"):
+            if w.startswith("tu") and not t.get("same_line"):
                 out.append("#ifdef IN_%s" % w.upper())
                 out += render_typedef(model, t, cxx)
                 out.append("#endif")
@@ -414,12 +422,16 @@ def render_tu(model, k, headers=("types.h",), order=None, blank=0, comments=Fals
     out = []
     if model.get("priv_in_header"):
         out.append("#define IN_TU%d" % k)
+    for t in model["types"]:
+        if t.get("same_line") and t.get("where") == "tu%d" % k:
+            # one typedef line in the shared header, another underlying type in every translation unit
+            out.append("#define %s_BASE %s" % (t["cname"].upper(), decl(model, t["type"], "", cxx)))
     for h in headers:
         out.append('#include "%s"' % h)
     out += [""] * blank
     # TU-private types
     for t in model["types"]:
-        if t.get("where") == "tu%d" % k and not model.get("priv_in_header"):
+        if t.get("where") == "tu%d" % k and not model.get("priv_in_header") and not t.get("same_line"):
             out += render_typedef(model, t, cxx)
     items = [("fn", f) for f in model["funcs"] if f["tu"] == k] + \
             [("var", v) for v in model["vars"] if v["tu"] == k] + \
